@@ -15,8 +15,8 @@ using namespace photon::net::http;
 namespace {
 
 // receive_header() is what the library's own client/server call; it is protected in Message
-struct Req : Request { using Request::Request; using Message::receive_header; };
-struct Resp : Response { using Response::Response; using Message::receive_header; };
+struct Req : Request { using Request::Request; using Message::receive_header; using Message::skip_remain; };
+struct Resp : Response { using Response::Response; using Message::receive_header; using Message::skip_remain; };
 
 struct Truth {
     bool is_request = false;
@@ -251,6 +251,20 @@ void check_keepalive() {
         std::sort(hs.begin(), hs.end());
         if (hs != truth_headers(t)) HX_VIOL("parse-differs", "header multimap differs from what was sent: %s", d);
         std::string body, tmp(40000, 0);
+        if (t.framing == 0 && t.body.size() > 1 && sim::rnd(3) == 0) {
+            // the application loses interest half-way: the rest of a Content-Length body is skipped, the connection stays usable
+            size_t part = sim::rnd(t.body.size());
+            while (body.size() < part) {
+                ssize_t k = m->read(&tmp[0], std::min<size_t>(part - body.size(), 1 + sim::rnd(4000)));
+                if (k <= 0) HX_VIOL("body-end", "body read returned %zd after %zu of %zu bytes: %s", k, body.size(), t.body.size(), d);
+                body.append(tmp.data(), k);
+            }
+            if (body != t.body.substr(0, body.size())) HX_VIOL("body-differs", "the first %zu body bytes differ: %s", body.size(), d);
+            int sr = is_request ? req.skip_remain() : resp.skip_remain();       // (what the library's client does with a response nobody reads to the end)
+            sim::probe("skip_remain");
+            if (sr != 0) { if (t.body.size() - part <= 4096) HX_VIOL("body-end", "skip_remain() = %d with %zu bytes left: %s", sr, t.body.size() - part, d); return; }
+            continue;
+        }
         for (int guard = 0; guard < 200000; guard++) {
             ssize_t k = m->read(&tmp[0], sim::rnd(3) == 0 ? 1 + sim::rnd(16) : 1 + sim::rnd(tmp.size()));
             if (k < 0) HX_VIOL("body-end", "body read failed (errno %d) instead of reaching end-of-body: %s", errno, d);
